@@ -12,7 +12,7 @@ import (
 func init() {
 	register("C02", &ruleSet{
 		run:    runC02,
-		floors: map[string]int{"O1": 4, "O2": 6, "O3": 8, "O4": 1, "O5": 8, "O6": 1, "O7": 2, "O8": 3, "O9": 3},
+		floors: map[string]int{"O1": 4, "O2": 6, "O3": 8, "O4": 1, "O5": 8, "O6": 1, "O7": 2, "O8": 3, "O9": 3, "O10": 6, "O11": 1},
 		explain: "Decides the release/complete pairing on all CFG paths of all layers (timeout, cancel and refused hand-off are ordinary paths): (O1) each outcome of a " +
 			"capacity-owning listener decrements the limiter's in-flight gauge by exactly 1 and releases the strategy token exactly once on every path; (O2) each " +
 			"wrapping listener forwards OnX to the delegate's same-named method exactly once; (O3) typestate: every listener/token obtained from delegate.Acquire, " +
@@ -38,6 +38,10 @@ func runC02(p *Prog, l *Ledger) {
 	importObligations(p, l, "C01", "O8", func(o *Obligation) bool { return o.Rule == "O2" })
 	l.Rule("O9", "nobody who has left is handed capacity (decided by the C12/O2 rule on the same tree): a caller that returns from a queueing Acquire has taken its own element out of the backlog, so a later release cannot acquire a token for it and park it where nobody reads")
 	importObligations(p, l, "C12", "O9", func(o *Obligation) bool { return o.Rule == "O2" })
+	l.Rule("O10", "a hand-off that races with the waiter giving up loses nothing (decided by the C10/O5 rules on the same tree): selecting the waiter, acquiring for it, evicting and delivering are one critical section with the waiter's give-up, so a token is never delivered to a waiter that has already left and reported failure")
+	importObligations(p, l, "C10", "O10", func(o *Obligation) bool { return o.Rule == "O5" })
+	l.Rule("O11", "the limiter again admits its full limit (decided by the C01/O7 rule on the same tree): a refusal is the strategy's answer to this very request - a remembered refusal outlives the capacity that caused it when no completion is left to clear it")
+	importObligations(p, l, "C01", "O11", func(o *Obligation) bool { return o.Rule == "O7" })
 	l.NotCovered = []string{"callers completing a listener twice or never (API misuse)", "quiescent values (all zero) are a consequence, not separately computed"}
 
 	lisIface := p.coreIface("Listener")
